@@ -7,9 +7,12 @@ Import ListNotations.
 Open Scope Z_scope.
 
 (* ------------------------------------------------------------------ *)
-Definition sym_shape (s : sym) : name * nat * bool := (s_name s, s_depth s, s_const s).
-Definition shape (st : state) : list (name * nat * bool) := map sym_shape (syms st).
-Definition sh_depth (t : name * nat * bool) : nat := snd (fst t).
+(* what a finished block, call or handler may not change of a symbol: its name, depth, constness and — for a
+   constant — its value (C06: constants and inputs are never reassigned) *)
+Definition sym_shape (s : sym) : name * nat * bool * option val :=
+  (s_name s, s_depth s, s_const s, if s_const s then Some (s_val s) else None).
+Definition shape (st : state) : list (name * nat * bool * option val) := map sym_shape (syms st).
+Definition sh_depth (t : name * nat * bool * option val) : nat := snd (fst (fst t)).
 
 Definition frame_sim (f g : frame) : Prop := f_kind f = f_kind g /\ f_this f = f_this g.
 
@@ -362,7 +365,7 @@ Proof.
   induction ss as [|s tl IH]; intros ss' H; simpl in H; [discriminate|].
   destruct (s_name s =? x) eqn:E.
   - destruct (s_const s) eqn:C; [discriminate|]. inversion H; subst. simpl. unfold sym_shape at 1 3. simpl.
-    f_equal. f_equal; [f_equal; lia|congruence].
+    rewrite C. f_equal. f_equal. f_equal. f_equal. lia.
   - destruct (set_sym x v tl) as [[tl'|]|] eqn:R; try discriminate. inversion H; subst.
     simpl. f_equal. apply IH. reflexivity.
 Qed.
@@ -396,7 +399,7 @@ Proof.
   destruct (is_global x); [split; [apply R_er_of_ctl; [assumption|reflexivity]|reflexivity]|].
   destruct (redeclared x (depth st) (syms st)); [split; [apply R_er_of_ctl; [assumption|reflexivity]|reflexivity]|].
   repeat split; try reflexivity.
-  - exists [(x, depth st, c)]. split; [reflexivity|]. constructor; [reflexivity|constructor].
+  - exists [(x, depth st, c, if c then Some v else None)]. split; [reflexivity|]. constructor; [reflexivity|constructor].
   - apply W.
   - cbn [syms depth set_syms]. constructor; [cbn [s_depth]; lia|apply W].
 Qed.
